@@ -4,6 +4,6 @@ import SwV.Spec.C11Run
 open SwV.Drv SwV.Model.C11 SwV.Spec.C11 SwV.Spec.C11Run
 
 def judge (o : Obs) (d : DSt) : List (String × String) :=
-  judgeC11 o d.st.limit d.st.asMin d.st.nVid d.knownFull d.staleEc
+  judgeC11 o d.st.limit d.st.asMin d.st.nVid d.knownFull d.staleEc d.told d.overCls
 
 def main : IO Unit := run { init := ({} : DSt), step := stepWith judge }
